@@ -1637,9 +1637,9 @@ for _p in sorted(_glob.glob(_os.path.join(_HERE, 'refactors', 'R*.diff'))):
 for _p in sorted(_glob.glob(_os.path.join(_os.path.dirname(_HERE), 'seeded', 'C[0-9][0-9]-[0-9]*', 'patch.diff'))):
     _n = _os.path.basename(_os.path.dirname(_p))
     _v = _PatchVariant(_n.split('-')[0], 'breaker', 'seeded-' + _n, _p)
-    # two changes of the fifth round end in "undecided" (exit 2, no verdict): the warning text capped by its length (the length of a
-    # formatted traceback is unknown to the wrapper model) and the defaults kept in a ChainMap (the default-table reader wants a dict)
-    if _n in ('C14-14', 'C18-15'):
+    # one change of the fifth round ends in "undecided" (exit 2, no verdict): the warning text capped by its length (the length of a
+    # formatted traceback is unknown to the wrapper model)
+    if _n in ('C14-14',):
         _v.accept_exit2 = True
     VARIANTS.append(_v)
 # the repairs made to the library, reverted one by one (selftest/regressions/<prop>-<commit>.diff = git diff <commit> <commit>~1):
